@@ -70,8 +70,17 @@ def build_and_validate_headers(headers: Iterable[Tuple[bytes, bytes]]) -> List[T
     for name, value in headers:
         if name[0] == b":"[0]:
             raise ValueError("Pseudo headers are not valid")
-        validated_headers.append((bytes(name).strip(), bytes(value).strip()))
+        validated_headers.append((validate_header_part(name), validate_header_part(value)))
     return validated_headers
+
+
+def validate_header_part(part: bytes) -> bytes:
+    # Validates that the header name or value is bytes and cannot
+    # inject a new line (or truncate the line) on the wire
+    validated_part = bytes(part).strip()
+    if b"\r" in validated_part or b"\n" in validated_part or b"\0" in validated_part:
+        raise ValueError("Header names and values must not contain CR, LF or NUL")
+    return validated_part
 
 
 def filter_pseudo_headers(headers: List[Tuple[bytes, bytes]]) -> List[Tuple[bytes, bytes]]:
